@@ -313,6 +313,13 @@ pub fn judge(c: &Case17) -> Vec<(String, String)> {
             wrapped.push(("attributes-1", Variant::Attributes(rbx_types::Attributes::new().with("k", v.clone()))));
             wrapped.push(("attributes-2", Variant::Attributes(rbx_types::Attributes::new().with("a", Variant::Bool(true)).with("k", v.clone()).with("z", Variant::String("s".into())))));
             wrapped.push(("attributes-nested", Variant::Attributes(rbx_types::Attributes::new().with("outer", Variant::Attributes(rbx_types::Attributes::new().with("k", v.clone()))))));
+            // attribute names of any length and content are ordinary map keys
+            for (how, key) in [("attributes-key-empty", String::new()), ("attributes-key-100", "n".repeat(100)), ("attributes-key-101", "n".repeat(101)), ("attributes-key-multibyte-102", "\u{20ac}".repeat(34)), ("attributes-key-4097", "k".repeat(4097)), ("attributes-key-odd", " \"\\\u{0}\u{85}\n".to_owned())] {
+                if label == "nan" || ty != "Int32" && how != "attributes-key-101" {
+                    continue;
+                }
+                wrapped.push((how, Variant::Attributes(rbx_types::Attributes::new().with(key, v.clone()))));
+            }
             if let Variant::CFrame(c) = &v {
                 wrapped.push(("optional-cframe", Variant::OptionalCFrame(Some(*c))));
             }
